@@ -2,7 +2,7 @@
 from vx.extract import C
 from .exec_common import exec_unit, begin_ast, end_ast, FOOTER
 
-PROPS = ['C02', 'C18', 'C16', 'C01']
+PROPS = ['C02', 'C18', 'C16', 'C09', 'C01']
 
 
 def build(repo, findings):
@@ -33,7 +33,7 @@ def build(repo, findings):
         C('C18 definition-time-redirects-run-before-the-frame-is-pushed', '(sh0.trace() == old(context.shell).trace() && sh0.frames() == old(context.shell).frames() && sh0.scopes() == old(context.shell).scopes() && sh0.leave_errs() == old(context.shell).leave_errs())'),
     ])
     f.sig(fn, ret='res', ensures=[
-        C('C18,C16 call-balanced', '''// on EVERY exit (Ok or Err, whatever the body did) both stacks are as deep as before, unless leave_function itself failed
+        C('C18,C16,C09 call-balanced', '''// on EVERY exit (Ok or Err, whatever the body did) both stacks are as deep as before, unless leave_function itself failed
 final(context.shell).leave_errs() == old(context.shell).leave_errs()
     ==> final(context.shell).frames() == old(context.shell).frames() && final(context.shell).scopes() == old(context.shell).scopes()'''),
         C('C18 no-early-exit-between-enter-and-leave', '''final(context.shell).trace().len() == old(context.shell).trace().len()
